@@ -8,6 +8,7 @@ import (
 	"fmt"
 	"sort"
 	"strings"
+	"time"
 
 	"github.com/SAP/go-dblib/zz_verif/simrt"
 )
@@ -59,6 +60,24 @@ type Knobs struct {
 	CtxErrPoints   bool   `json:"ctx_err_points,omitempty"`
 	TargetSite     int    `json:"target_site,omitempty"`
 	TargetNth      int    `json:"target_nth,omitempty"`
+	// Slow: pauses of the server (it stops reading the connection for a while: the client's writes block once the
+	// socket buffer is full and go on afterwards). A slow peer changes when things happen, never what happens.
+	Slow []simrt.Stall `json:"slow,omitempty"`
+}
+
+// GenSlow draws 1..3 pauses of the peer: after 0..maxByte bytes received, socket buffer 0..2000 bytes, lasting up to
+// maxFor. Worlds opt in (their timing oracles must tolerate the delay).
+func (k *Knobs) GenSlow(r *Rand, maxByte int, maxFor time.Duration) {
+	n := 1 + r.Intn(3)
+	at := 0
+	for i := 0; i < n; i++ {
+		at += r.Intn(maxByte/n + 1)
+		d := []time.Duration{time.Millisecond, 20 * time.Millisecond, maxFor}[r.Intn(3)]
+		if d > maxFor {
+			d = maxFor
+		}
+		k.Slow = append(k.Slow, simrt.Stall{AtByte: at, Window: Pick(r, []int{0, 1, 7, 8, 100, 511, 512, 513, 2000}), For: d})
+	}
 }
 
 // GenKnobs draws scheduler knobs.
@@ -98,6 +117,7 @@ func (k Knobs) Config(schedSeed uint64) simrt.Config {
 		TargetNth:      k.TargetNth,
 		EOFReadCostMs:  k.EOFReadCostMs,
 		MaxSteps:       k.MaxSteps,
+		SlowPeer:       k.Slow,
 	}
 }
 
